@@ -14,8 +14,10 @@ Variable P : Type.
 Variable iset : Type.
 Variable mkset : list P -> iset.
 
-(* kind of a top-level node: is_import / _ast_str_literal_value(node) is not None / anything else *)
-Inductive nkind := KImport (p : P) | KStrExpr | KOther.
+(* kind of a top-level node: is_import / _ast_str_literal_value(node) is a str / ... is a bytes
+   object (an expression statement that is a bytes literal: a "string literal" for
+   is_comment_or_blank_or_string_literal, never a docstring) / anything else (f-strings included) *)
+Inductive nkind := KImport (p : P) | KStrExpr | KBytesExpr | KOther.
 
 Definition snode := node nkind.
 Definition spiece := piece nkind.
@@ -147,6 +149,7 @@ End Blocks.
 
 Arguments KImport {P}.
 Arguments KStrExpr {P}.
+Arguments KBytesExpr {P}.
 Arguments KOther {P}.
 Arguments is_import_piece {P}.
 Arguments payload_of {P}.
